@@ -469,6 +469,77 @@ def pipelined_cwd_items(tier):
     return items
 
 
+# -- names that differ only in their Unicode normalisation form are different names -------------------------------------
+UFORMS = [("caf\u00e9", "cafe\u0301"), ("\u00c5ngstr\u00f6m", "\u212bngstro\u0308m"), ("\u03a9hm", "\u2126hm"),
+          ("\uac00", "\u1100\u1161")]
+UVERBS = {"CWD": "{d}", "LIST": "{d}", "MLSD": "{d}", "MLST": "{d}/secret.txt", "RETR": "{d}/secret.txt", "MKD": "{d}/n",
+          "RMD": "{d}/sub", "DELE": "{d}/secret.txt", "RNFR": "{d}/secret.txt", "RNTO": "{d}/moved", "STOR": "{d}/up",
+          "APPE": "{d}/secret.txt"}
+
+
+def unicode_forms(item):
+    """an entry closes one directory; the same letters in another normalisation form name another location: whatever
+    form the request uses, the closed directory is neither read nor changed nor entered"""
+    (composed, decomposed), entry_form, verb = item
+    from vf.rig import Rig
+    part = report.Partial()
+    closed = composed if entry_form == "composed" else decomposed
+    other = decomposed if entry_form == "composed" else composed
+    problems = []
+
+    def users(a, base):
+        return [a.User(base_path=base, permissions=[a.Permission("/" + closed, readable=False, writable=False)])]
+    rig = Rig(tree={closed: {"secret.txt": b"S3CR3T-CONTENT", "sub": {}}, "pub": {"free": b"free"}}, users=users)
+    try:
+        rig.ev(0, "@connect")
+        rig.ev(0, "USER anonymous")
+        before = rig.snapshot()
+        for spelled in (closed, other):
+            arg = UVERBS[verb].format(d="/" + spelled)
+            transfer = verb in ("LIST", "MLSD", "RETR", "STOR", "APPE")
+            if transfer:
+                rig.ev(0, "EPSV")
+                rig.ev(0, "@data")
+            if verb == "RNTO":
+                rig.ev(0, "RNFR /pub/free")
+            r = rig.ev(0, f"{verb} {arg}")
+            codes = [c for c, _ in (r or [])]
+            s0 = rig.sessions[0]
+            if verb in ("STOR", "APPE") and s0.data is not None and codes[:1] == ["150"]:
+                rig.ev(0, "@dsend NEW")
+                rig.ev(0, "@dclose")
+            if verb == "RNFR" and codes == ["350"]:
+                rig.ev(0, "RNTO /pub/stolen")
+            got = bytes(s0.data.received) if (transfer and s0.data is not None) else b""
+            text = " ".join(" ".join(ls) for _, ls in (r or []))
+            after = rig.snapshot()
+            inside = lambda k: k == "/" + closed or k.startswith("/" + closed + "/")     # noqa
+            changed = [k for k in set(before) | set(after) if before.get(k) != after.get(k) and inside(k)]
+            if changed:
+                problems.append({"kind": "closed-directory-changed", "verb": verb, "arg": arg, "changed": changed, "codes": codes})
+            if b"S3CR3T" in got or b"secret.txt" in got or "secret.txt" in text and spelled != closed:
+                problems.append({"kind": "closed-directory-read", "verb": verb, "arg": arg, "codes": codes})
+            if spelled == closed and codes and codes[0][:1] in "123":
+                problems.append({"kind": "request-on-the-closed-directory-not-refused", "verb": verb, "arg": arg, "codes": codes})
+            pwd = rig.ev(0, "PWD")
+            ptxt = " ".join(pwd[0][1]) if pwd else ""
+            if ("/" + closed) in ptxt:
+                problems.append({"kind": "entered-the-closed-directory", "verb": verb, "arg": arg, "pwd": ptxt})
+            before = after
+        part.evaluations += 1
+        part.traces += 1
+        part.transitions += rig.world.net.n_events
+        k = report.fp(["unicode-forms", composed, entry_form, verb])
+        part.states.add(k)
+        part.nontrivial.add(k)
+        for p_ in problems[:1]:
+            part.violation({"kind": p_["kind"], "verb": verb, "unicode_forms": True}, {"problem": p_, "entry": closed},
+                           replay={"unicode": [list(item[0]), entry_form, verb]})
+    finally:
+        rig.close()
+    return part
+
+
 def wire_items(tier):
     items = []
     for tname in WTABLES:
@@ -487,12 +558,15 @@ def wire_items(tier):
 def run(tier, seed, t0):
     parts = report.pmap(func_work, func_items(tier)) + report.pmap(wire_case, wire_items(tier)) + \
         report.pmap(late_case, late_items()) + report.pmap(relogin_case, relogin_items()) + \
-        report.pmap(pipelined_cwd_work, pipelined_cwd_items(tier))
+        report.pmap(pipelined_cwd_work, pipelined_cwd_items(tier)) + \
+        report.pmap(unicode_forms, [(pair, form, verb) for pair in (UFORMS if tier != "quick" else UFORMS[:2])
+                                    for form in ("composed", "decomposed") for verb in UVERBS])
     part = report.merge_all(parts)
     bounds = {"function": {"entries": len(ENTRIES), "tables": "all ordered tables of <= 3 entries (with duplicates) over 6 paths x 4 flag combinations",
                            "queries": "all paths of depth <= %d over {a,b,c}" % (3 if tier == "quick" else 4)},
               "wire": {"tables": list(WTABLES), "verbs": VERBS, "targets": TARGETS, "cwds": CWDS,
                        "alias_spellings": 8},
+              "unicode_forms": "a closed directory whose name has a composed and a decomposed form (4 pairs; quick 2) x entry in either form x request in either form x 12 verbs: effect oracle",
               "relogin": {"table_pairs": list(RELOGIN_PAIRS), "touch": RELOGIN_TOUCH, "verbs": RELOGIN_VERBS,
                           "users": "alice (password) and guest (no password), either first"},
               "pipelined_cwd": {"tables": list(PTABLES), "verbs": list(PVERBS), "backend": "path checks suspend: executor "
@@ -520,7 +594,10 @@ def replay(path):
         res = run_pipelined_cwd(rp["pipelined_cwd"], Chooser(rp["choices"], rp["kinds"]))
         print(json.dumps(res["problems"], indent=1, default=repr))
         return 1 if res["problems"] else 0
-    if rp.get("relogin"):
+    if rp.get("unicode"):
+        u = rp["unicode"]
+        part = unicode_forms((tuple(u[0]), u[1], u[2]))
+    elif rp.get("relogin"):
         part = relogin_case(tuple(rp["relogin"]))
     elif rp.get("late"):
         part = late_case(tuple(rp["late"]))
